@@ -15,7 +15,9 @@
 //         bit  7    the result goes to a FormatterListener (output method override, xsl:output is ignored):
 //   optB  bits 0-1  setIndent: 0 leave, 1 -> 0, 2 -> 2, 3 -> 20   bits 2-3 setOutputEncoding: 0 leave 1 UTF-16 2 ISO-8859-1 3 US-ASCII
 //         bits 4-5  listener for optA bit 7: 0 FormatterToText 1 FormatterToHTML 2 FormatterToXML 3 XML 1.1 factory serializer
-//         bit  6    setEscapeURLs(No) + setOmitMETATag(Yes)
+//         bit  6    setEscapeURLs(No) + setOmitMETATag(Yes), and the input streams carry the system ids "file:main.xsl" /
+//                   "file:main.xml" (no directory part; or none at all when optA bit 6 is set too) instead of file:///vmem/main.xsl: relative hrefs
+//                   then resolve against a base URI without directory part
 //         bit  7    the source is wrapped in 200 levels of <n> (deep nesting amplifier)
 #include "fz_transform_common.hpp"
 
@@ -180,8 +182,16 @@ extern "C" int LLVMFuzzerTestOneInput(const uint8_t* data, size_t size)
     // ---- the call under test
     std::istringstream xslStream(xsl), xmlStream(xml);
     XSLTInputSource xslIn(&xslStream), xmlIn(&xmlStream);
-    xslIn.setSystemId(dom("file:///vmem/main.xsl").c_str());
-    xmlIn.setSystemId(dom("file:///vmem/main.xml").c_str());
+    if (!(optB & 0x40))
+    {
+        xslIn.setSystemId(dom("file:///vmem/main.xsl").c_str());
+        xmlIn.setSystemId(dom("file:///vmem/main.xml").c_str());
+    }
+    else if (!(optA & 0x40))
+    {
+        xslIn.setSystemId(dom("file:main.xsl").c_str());
+        xmlIn.setSystemId(dom("file:main.xml").c_str());
+    }
     std::ostringstream out;
     Sink sink;
     std::unique_ptr<ListenerTarget> lt;
